@@ -91,12 +91,13 @@ const GAPS: [u32; 8] = [20, 100, 17_281, 20_000, 600_000, 1_100_000, 4_000_000, 
 #[derive(Clone, Debug)]
 enum A { I(i128), U32(u32), Addr, U128(u128), I64(i64), Void, Sym, U64(u64) }
 #[derive(Clone, Debug)]
-struct Cx { kind: u8, f: usize, args: std::vec::Vec<A> }
+struct Cx { tok: usize, kind: u8, f: usize, args: std::vec::Vec<A> }
 impl Cx {
-    fn transfer(a: i128) -> Cx { Cx { kind: 0, f: 0, args: std::vec![A::Addr, A::Addr, A::I(a)] } }
+    fn transfer(a: i128) -> Cx { Cx { tok: 0, kind: 0, f: 0, args: std::vec![A::Addr, A::Addr, A::I(a)] } }
+    fn transfer_t(tok: usize, a: i128) -> Cx { Cx { tok, kind: 0, f: 0, args: std::vec![A::Addr, A::Addr, A::I(a)] } }
     fn coq(&self) -> String {
         let args: std::vec::Vec<String> = self.args.iter().map(|a| match a { A::I(v) => format!("(AI128 {})", z(*v)), _ => "AOther".to_string() }).collect();
-        match self.kind { 0 => format!("(CContract {} {})", n(self.f as u64), list(&args)), 1 => "CCreate".into(), _ => "CCreateCtor".into() }
+        match self.kind { 0 => format!("(CContract {} {} {})", n(self.tok as u64), n(self.f as u64), list(&args)), 1 => "CCreate".into(), _ => "CCreateCtor".into() }
     }
     fn amount(&self) -> Option<i128> {
         if self.kind == 0 && self.f == 0 { if let Some(A::I(v)) = self.args.get(2) { return Some(*v); } }
@@ -114,11 +115,12 @@ struct World {
     pol: [Address; 3],          // simple, weighted, spending
     accts: std::vec::Vec<Address>, // 0..=3 (3 = outsider)
     sgs: std::vec::Vec<Signer>,
-    tok: Address,
+    toks: [Address; 2],         // two token contracts: the policy keeps ONE budget for all of them
     now: u32,
     prev_hist: std::vec::Vec<std::vec::Vec<(i128, u32)>>, // per key: last observed spending history
     items: std::vec::Vec<String>,
     max_hist: u32,
+    prev_lp: std::vec::Vec<Option<(i128, u32)>>, // per key: last observed (limit, period)
     na: usize,                  // accounts of the observed universe (0..na)
     nr: usize,                  // rule ids of the observed universe (RIDS[0..nr])
     prev_full: String, // canonical text of the last observed getter values
@@ -152,9 +154,9 @@ impl World {
             Signer::External(v1.clone(), Bytes::from_array(&e, &[1u8; 32])), Signer::External(v1.clone(), Bytes::from_array(&e, &[2u8; 32])),
             Signer::External(v2.clone(), Bytes::from_array(&e, &[1u8; 32])),
         ];
-        let tok = Address::generate(&e);
-        World { e, pol: [simple, weighted, spending], accts, sgs, tok, now: start,
-                prev_hist: std::vec![std::vec![]; na * nr], items: std::vec![], max_hist: sl::MAX_HISTORY_ENTRIES, na, nr, prev_full: { let nk = na * nr; let nones: std::vec::Vec<String> = std::vec!["None".to_string(); nk]; format!("{}{}{}", "-;".repeat(nk), list(&nones), list(&nones)) } }
+        let toks = [Address::generate(&e), Address::generate(&e)];
+        World { e, pol: [simple, weighted, spending], accts, sgs, toks, now: start,
+                prev_hist: std::vec![std::vec![]; na * nr], items: std::vec![], max_hist: sl::MAX_HISTORY_ENTRIES, prev_lp: std::vec![None; na * nr], na, nr, prev_full: { let nk = na * nr; let nones: std::vec::Vec<String> = std::vec!["None".to_string(); nk]; format!("{}{}{}", "-;".repeat(nk), list(&nones), list(&nones)) } }
     }
     fn pol_addr(&self, p: Pol) -> &Address { match p { Pol::S => &self.pol[0], Pol::W => &self.pol[1], Pol::L => &self.pol[2] } }
     fn rule(&self, rid: u32, rs: &[usize]) -> ContextRule {
@@ -175,7 +177,7 @@ impl World {
         let exe = ContractExecutable::Wasm(BytesN::from_array(e, &[9u8; 32]));
         let salt = BytesN::from_array(e, &[1u8; 32]);
         match c.kind {
-            0 => Context::Contract(ContractContext { contract: self.tok.clone(), fn_name: Symbol::new(e, FNAMES[c.f]), args }),
+            0 => Context::Contract(ContractContext { contract: self.toks[c.tok].clone(), fn_name: Symbol::new(e, FNAMES[c.f]), args }),
             1 => Context::CreateContractHostFn(CreateContractHostFnContext { executable: exe, salt }),
             _ => Context::CreateContractWithCtorHostFn(CreateContractWithConstructorHostFnContext { executable: exe, salt, constructor_args: args }),
         }
@@ -255,11 +257,12 @@ impl World {
                         let push: std::vec::Vec<String> = h[common..].iter().map(|(a, l)| format!("({}, {})", z(*a), l)).collect();
                         if h.len() as u32 >= self.max_hist { /* label added by caller */ }
                         let s = format!("Some ({}, {}, ({}, {}), {})", z(d.spending_limit), d.period_ledgers, n(drop as u64), list(&push), z(d.cached_total_spent));
-                        full.push_str(&format!("{:?}{}{}{};", h, d.spending_limit, d.period_ledgers, d.cached_total_spent));
+                        full.push_str(&format!("{:?}|{}|{}|{};", h, d.spending_limit, d.period_ledgers, d.cached_total_spent));
                         self.prev_hist[k] = h;
+                        self.prev_lp[k] = Some((d.spending_limit, d.period_ledgers));
                         s
                     }
-                    _ => { self.prev_hist[k] = std::vec![]; full.push_str("-;"); "None".into() }
+                    _ => { self.prev_hist[k] = std::vec![]; self.prev_lp[k] = None; full.push_str("-;"); "None".into() }
                 });
                 k += 1;
             }
@@ -325,11 +328,35 @@ impl World {
         };
         let evs = self.events();
         let before = self.hist_len(a, r);
+        // what the window looked like before the call (from the last observation)
+        let (depth, inwin, lim) = match self.key_ix(a, r).and_then(|k| self.prev_lp[k].map(|lp| (k, lp))) {
+            Some((k, (lim, per))) => { let cut = self.now.saturating_sub(per);
+                let live: std::vec::Vec<&(i128, u32)> = self.prev_hist[k].iter().filter(|x| x.1 > cut).collect();
+                (live.len() as i64, live.iter().fold(0i128, |s, x| s.saturating_add(x.0)), Some(lim)) }
+            None => (-1, 0, None),
+        };
         let call = format!("Enforce {} {} {} {} {} {}", p.coq(), auth.coq(), n(a as u64), n(RIDS[r] as u64),
                            list(&cxs.iter().map(|c| c.coq()).collect::<std::vec::Vec<_>>()), list(&sg.iter().map(|i| n(*i as u64)).collect::<std::vec::Vec<_>>()));
         let kind = if cxs.len() == 1 { "enforce" } else { "batch" };
         let lab = format!("{}_{}/{}", p.tag(), kind, if ok { "ok" } else if !auth.has(a) { "fail-noauth" } else { "fail" });
         self.record(out, &lab, call, if ok { "Ok RUnit" } else { "Fail" }, evs);
+        if p == Pol::L && !cxs.is_empty() {
+            let amts: std::vec::Vec<Option<i128>> = cxs.iter().map(|c| c.amount()).collect();
+            let plain = amts.iter().all(|x| matches!(x, Some(v) if *v >= 0));
+            let total: i128 = amts.iter().fold(0i128, |s, x| s.saturating_add(x.unwrap_or(0)));
+            if self.now == 0 { out.label(&format!("l_{}/ledger0", kind)); }
+            else if ok { out.label(&format!("l_{}/ok-depth{}", kind, if depth >= 3 { ">=3" } else if depth >= 1 { "1-2" } else { "0" })); }
+            else if auth.has(a) && !sg.is_empty() && plain {
+                match lim {
+                    None => out.label(&format!("l_{}/fail-notinstalled", kind)),
+                    Some(l) if inwin > l => out.label(&format!("l_{}/fail-lowered", kind)),
+                    Some(l) if total > l => out.label(&format!("l_{}/fail-amount", kind)),
+                    Some(l) if inwin.saturating_add(total) > l => out.label(&format!("l_{}/fail-window", kind)),
+                    Some(_) if depth as usize + cxs.len() > self.max_hist as usize => out.label(&format!("l_{}/fail-capacity", kind)),
+                    Some(_) => out.label(&format!("l_{}/fail-other", kind)),
+                }
+            }
+        }
         if p == Pol::L && ok {
             let after = self.hist_len(a, r);
             if after < before + cxs.len() { out.label("l_enforce/evicted"); }
@@ -430,23 +457,23 @@ fn sublist(rng: &mut Rng, maxlen: usize, dups: bool) -> std::vec::Vec<usize> {
 fn sublist_d(rng: &mut Rng, maxlen: usize, num: u64, den: u64) -> std::vec::Vec<usize> { let d = rng.chance(num, den); sublist(rng, maxlen, d) }
 fn malformed_ctx(rng: &mut Rng, amt: i128) -> Cx {
     match rng.below(12) {
-        0 => Cx { kind: 1, f: 0, args: std::vec![] },
-        1 => Cx { kind: 2, f: 0, args: std::vec![A::Addr, A::Addr, A::I(amt)] },
-        2 => Cx { kind: 0, f: 1 + rng.below(5) as usize, args: std::vec![A::Addr, A::Addr, A::I(amt)] },
-        3 => Cx { kind: 0, f: 0, args: std::vec![A::Addr, A::Addr] },
-        4 => Cx { kind: 0, f: 0, args: std::vec![] },
-        5 => Cx { kind: 0, f: 0, args: std::vec![A::Addr, A::Addr, A::U32(amt as u32)] },
-        6 => Cx { kind: 0, f: 0, args: std::vec![A::Addr, A::Addr, A::U128(amt as u128 & 0xffff)] },
-        7 => Cx { kind: 0, f: 0, args: std::vec![A::Addr, A::Addr, A::I64(amt as i64)] },
-        8 => Cx { kind: 0, f: 0, args: std::vec![A::Addr, A::I(amt), A::Addr] },
-        9 => Cx { kind: 0, f: 0, args: std::vec![A::I(amt), A::I(amt), A::Void] },
-        10 => Cx { kind: 0, f: 0, args: std::vec![A::Addr, A::Addr, A::U64(amt as u64)] },
-        _ => Cx { kind: 0, f: 0, args: std::vec![A::Addr, A::Addr, A::Sym] },
+        0 => Cx { tok: 0, kind: 1, f: 0, args: std::vec![] },
+        1 => Cx { tok: 0, kind: 2, f: 0, args: std::vec![A::Addr, A::Addr, A::I(amt)] },
+        2 => Cx { tok: 0, kind: 0, f: 1 + rng.below(5) as usize, args: std::vec![A::Addr, A::Addr, A::I(amt)] },
+        3 => Cx { tok: 0, kind: 0, f: 0, args: std::vec![A::Addr, A::Addr] },
+        4 => Cx { tok: 0, kind: 0, f: 0, args: std::vec![] },
+        5 => Cx { tok: 0, kind: 0, f: 0, args: std::vec![A::Addr, A::Addr, A::U32(amt as u32)] },
+        6 => Cx { tok: 0, kind: 0, f: 0, args: std::vec![A::Addr, A::Addr, A::U128(amt as u128 & 0xffff)] },
+        7 => Cx { tok: 0, kind: 0, f: 0, args: std::vec![A::Addr, A::Addr, A::I64(amt as i64)] },
+        8 => Cx { tok: 0, kind: 0, f: 0, args: std::vec![A::Addr, A::I(amt), A::Addr] },
+        9 => Cx { tok: 0, kind: 0, f: 0, args: std::vec![A::I(amt), A::I(amt), A::Void] },
+        10 => Cx { tok: 0, kind: 0, f: 0, args: std::vec![A::Addr, A::Addr, A::U64(amt as u64)] },
+        _ => Cx { tok: 0, kind: 0, f: 0, args: std::vec![A::Addr, A::Addr, A::Sym] },
     }
 }
 /// well-formed transfer with possibly extra arguments (only index 2 matters)
 fn transfer_ctx(rng: &mut Rng, amt: i128) -> Cx {
-    let mut c = Cx::transfer(amt);
+    let mut c = Cx::transfer_t(rng.below(2) as usize, amt);
     match rng.below(8) { 0 => c.args.push(A::I(7)), 1 => { c.args[0] = A::I(1); c.args[1] = A::U32(2); } 2 => c.args.push(A::Void), _ => {} }
     c
 }
@@ -472,7 +499,7 @@ fn gen_simple(w: &mut World, out: &mut Out, rng: &mut Rng, steps: usize) {
             9..=12 => { let sg = sublist_d(rng, 5, 1, 4); let cx = if rng.chance(1, 2) { Cx::transfer(5) } else { malformed_ctx(rng, 5) }; w.can_enforce(out, Pol::S, a, r, &cx, &sg); }
             13 => { // batch
                 let sg = sublist(rng, 5, false);
-                let cxs: std::vec::Vec<Cx> = (0..rng.below(4)).map(|_| if rng.chance(1, 2) { Cx::transfer(1) } else { malformed_ctx(rng, 1) }).collect();
+                let cxs: std::vec::Vec<Cx> = (0..rng.below(7)).map(|_| if rng.chance(1, 2) { Cx::transfer_t(rng.below(2) as usize, 1) } else { malformed_ctx(rng, 1) }).collect();
                 let au = if a == 0 { Auth { via: true, mock: std::vec![] } } else { Auth { via: true, mock: if rng.chance(3, 4) { std::vec![a] } else { std::vec![] } } };
                 w.enforce(out, Pol::S, &au, a, r, &cxs, &sg);
             }
@@ -527,7 +554,7 @@ fn gen_weighted(w: &mut World, out: &mut Out, rng: &mut Rng, steps: usize) {
             13..=15 => { let sg = sublist_d(rng, 6, 1, 3); w.can_enforce(out, Pol::W, a, r, &Cx::transfer(3), &sg); }
             16 => {
                 let sg = sublist(rng, 5, false);
-                let cxs: std::vec::Vec<Cx> = (0..rng.below(4)).map(|_| Cx::transfer(1)).collect();
+                let cxs: std::vec::Vec<Cx> = (0..rng.below(7)).map(|_| Cx::transfer_t(rng.below(2) as usize, 1)).collect();
                 let au = if a == 0 { Auth { via: true, mock: std::vec![] } } else { Auth { via: true, mock: if rng.chance(3, 4) { std::vec![a] } else { std::vec![] } } };
                 w.enforce(out, Pol::W, &au, a, r, &cxs, &sg);
             }
@@ -549,32 +576,55 @@ fn pick_amount(rng: &mut Rng, room: i128, limit: i128) -> i128 {
         _ => { let m = (limit / 3).max(2); rng.below(m.min(1 << 40) as u64) as i128 }
     }
 }
-fn gen_spending(w: &mut World, out: &mut Out, rng: &mut Rng, steps: usize, small: bool) {
-    // shadow (limit, period) per key to aim at boundaries; the window total is read from the last observation
-    let mut shadow: std::vec::Vec<Option<(i128, u32)>> = std::vec![None; NACCT * 2];
-    let nkeys = if small { 2 } else { NACCT * 2 };
+/// non-negative amounts aimed at the remaining room of the window
+fn pick_amount_nonneg(rng: &mut Rng, room: i128, limit: i128) -> i128 {
+    let r0 = room.max(0);
+    match rng.below(16) {
+        0 | 1 => r0, 2 => r0.saturating_add(1), 3 => (r0 - 1).max(0), 4 => 0, 5 => limit.max(0), 6 => limit.max(0).saturating_add(1),
+        7 => rng.u_bits(100), 8 => i128::MAX,
+        9 | 10 => (r0 / 2).max(0), 11 => (r0 / 3).max(0),
+        _ => { let m = (limit / 4).max(2); rng.below(m.min(1 << 40) as u64) as i128 }
+    }
+}
+/// random spending trace: install EARLY on one or two keys with a valid limit/period and the right
+/// authorisation, then spend / advance / change the limit on those keys (a few calls go elsewhere).
+/// `wild` = also negative and extreme amounts (kept out of the other traces so that those are
+/// evaluated with exact outcomes).
+fn gen_spending(w: &mut World, out: &mut Out, rng: &mut Rng, steps: usize, wild: bool) {
+    let me = |a: usize| Auth { via: a == 0, mock: if a == 0 { std::vec![] } else { std::vec![a] } };
+    let nk = 1 + rng.below(2) as usize;
+    let mut keys: std::vec::Vec<usize> = std::vec![];
+    while keys.len() < nk { let k = rng.below((NACCT * 2) as u64) as usize; if !keys.contains(&k) { keys.push(k); } }
+    let install = |w: &mut World, out: &mut Out, rng: &mut Rng, k: usize| {
+        let limit = match rng.below(8) { 0 => 1000, 1 => 1_000_000_000_000_000_000, 2 => 10, _ => 20 + rng.below(200) as i128 };
+        let period = match rng.below(10) { 0 => 30, 1 => u32::MAX, 2 => 600_001, 3 => 1, _ => 2 + rng.below(9) as u32 };
+        w.l_install(out, &me(k / 2), k / 2, k % 2, limit, period);
+    };
+    if rng.chance(1, 4) { let k = keys[0]; w.l_install(out, &me(k / 2), k / 2, k % 2, if rng.chance(1, 2) { 0 } else { 50 }, if rng.chance(1, 2) { 0 } else { 5 }); }
+    for &k in &keys { install(w, out, rng, k); }
     for _ in 0..steps {
-        let k = rng.below(nkeys as u64) as usize; let (a, r) = (k / 2, k % 2);
-        let auth = auth_any(rng, a);
-        let (lim, per) = shadow[k].unwrap_or((100, 5));
-        // amount already inside the window at the current ledger, from the last observed history
+        let k = if rng.chance(7, 8) { *rng.pick(&keys) } else { rng.below((NACCT * 2) as u64) as usize };
+        let (a, r) = (k / 2, k % 2);
+        let auth = if rng.chance(9, 10) { auth_ok(rng, a) } else { auth_bad(rng, a) };
+        let (lim, per) = w.prev_lp[k].unwrap_or((100, 5));
         let cutoff = w.now.saturating_sub(per);
         let inwin: i128 = w.prev_hist[k].iter().filter(|x| x.1 > cutoff).fold(0i128, |s, x| s.saturating_add(x.0));
         let room = lim.saturating_sub(inwin);
+        let amount = |rng: &mut Rng| if wild { pick_amount(rng, room, lim) } else { pick_amount_nonneg(rng, room, lim) };
         match rng.below(30) {
-            0..=2 => {
-                let limit = match rng.below(10) { 0 => 0, 1 => -1, 2 => 1, 3 => i128::MAX, 4 => 1_000_000_000_000_000_000, _ => 20 + rng.below(200) as i128 };
-                let period = match rng.below(10) { 0 => 0, 1 => 1, 2 => u32::MAX, 3 => w.now, 4 => w.now.saturating_sub(1).max(1), _ => 2 + rng.below(9) as u32 };
-                if w.l_install(out, &auth, a, r, limit, period) { shadow[k] = Some((limit, period)); }
+            0 => { // (re-)install attempts: over a live installation, with bad parameters, elsewhere
+                let limit = match rng.below(5) { 0 => 0, 1 => -1, _ => 20 + rng.below(200) as i128 };
+                let period = match rng.below(5) { 0 => 0, _ => 2 + rng.below(9) as u32 };
+                w.l_install(out, &auth, a, r, limit, period);
             }
-            3..=4 => {
-                let limit = match rng.below(8) { 0 => 0, 1 => -5, 2 => inwin, 3 => inwin.saturating_sub(1), 4 => inwin.saturating_add(1), 5 => i128::MAX, _ => 20 + rng.below(200) as i128 };
-                if w.l_set_limit(out, &auth, a, r, limit) { if let Some(s) = shadow[k].as_mut() { s.0 = limit; } }
+            1..=3 => {
+                let limit = match rng.below(10) { 0 => 0, 1 => -5, 2 | 3 => inwin.saturating_sub(1 + rng.below(5) as i128).max(1), 4 => inwin.max(1), 5 => inwin.saturating_add(1).max(1), 6 => i128::MAX, _ => 20 + rng.below(300) as i128 };
+                w.l_set_limit(out, &auth, a, r, limit);
             }
-            5 => { if rng.chance(1, 3) && w.uninstall(out, Pol::L, &auth, a, r) { shadow[k] = None; } }
-            6..=10 => {
+            4 => { if rng.chance(1, 3) { if w.uninstall(out, Pol::L, &auth, a, r) && rng.chance(2, 3) { install(w, out, rng, k); } } }
+            5..=11 => {
                 // ledger advances around the window edge of the oldest live entry
-                let d = match rng.below(8) {
+                let d = match rng.below(9) {
                     0 => 0,
                     1 | 2 => { match w.prev_hist[k].first() { Some(x) => (x.1 as u64 + per as u64).saturating_sub(w.now as u64).min(100_000) as u32, None => 1 } }          // oldest entry just expires
                     3 => { match w.prev_hist[k].first() { Some(x) => (x.1 as u64 + per as u64).saturating_sub(w.now as u64 + 1).min(100_000) as u32, None => 1 } }        // ... one ledger before that
@@ -584,28 +634,27 @@ fn gen_spending(w: &mut World, out: &mut Out, rng: &mut Rng, steps: usize, small
                 };
                 w.advance(out, d);
             }
-            11..=13 => {
-                let sg = if rng.chance(1, 8) { std::vec![] } else { sublist(rng, 3, false) };
-                let cx = { let amt = pick_amount(rng, room, lim); if rng.chance(2, 3) { transfer_ctx(rng, amt) } else { malformed_ctx(rng, amt) } };
+            12..=14 => {
+                let sg = if rng.chance(1, 10) { std::vec![] } else { sublist(rng, 3, false) };
+                let cx = { let amt = amount(rng); if rng.chance(4, 5) { transfer_ctx(rng, amt) } else { malformed_ctx(rng, amt) } };
                 w.can_enforce(out, Pol::L, a, r, &cx, &sg);
             }
-            14..=16 => {
+            15..=17 => {
                 // a batch: all can_enforce first (as the smart account does), then every enforce in ONE invocation
-                let nb = 2 + rng.below(3) as usize;
-                let sg = if rng.chance(1, 10) { std::vec![] } else { std::vec![rng.below(NSG as u64) as usize] };
+                let nb = 2 + rng.below(4) as usize;
+                let sg = if rng.chance(1, 12) { std::vec![] } else { std::vec![rng.below(NSG as u64) as usize] };
                 let mut cxs = std::vec![];
                 for i in 0..nb {
-                    let amt = match rng.below(6) { 0 => room, 1 => room / (nb as i128), 2 => room / (nb as i128) + 1, 3 => room - room / 2 * (i as i128 % 2), _ => rng.below((lim / 2).max(2).min(1 << 40) as u64) as i128 };
-                    cxs.push(if rng.chance(9, 10) { transfer_ctx(rng, amt) } else { malformed_ctx(rng, amt) });
+                    let amt = match rng.below(6) { 0 => room.max(0), 1 => (room / (nb as i128)).max(0), 2 => (room / (nb as i128)).max(0) + 1, 3 => (room - room / 2 * (i as i128 % 2)).max(0), _ => rng.below((lim / 3).max(2).min(1 << 40) as u64) as i128 };
+                    cxs.push(if rng.chance(14, 15) { transfer_ctx(rng, amt) } else { malformed_ctx(rng, amt) });
                 }
                 for cx in &cxs { w.can_enforce(out, Pol::L, a, r, cx, &sg); }
-                let au = if a == 0 { Auth { via: true, mock: std::vec![] } } else { Auth { via: true, mock: if rng.chance(5, 6) { std::vec![a] } else { std::vec![] } } };
+                let au = if a == 0 { Auth { via: true, mock: std::vec![] } } else { Auth { via: true, mock: if rng.chance(9, 10) { std::vec![a] } else { std::vec![] } } };
                 w.enforce(out, Pol::L, &au, a, r, &cxs, &sg);
             }
             _ => {
-                let sg = if rng.chance(1, 12) { std::vec![] } else { sublist(rng, 3, false) };
-                let sg = if sg.is_empty() && rng.chance(4, 5) { std::vec![0] } else { sg };
-                let cx = { let amt = pick_amount(rng, room, lim); if rng.chance(7, 8) { transfer_ctx(rng, amt) } else { malformed_ctx(rng, amt) } };
+                let sg = if rng.chance(1, 15) { std::vec![] } else { let v = sublist(rng, 3, false); if v.is_empty() { std::vec![0] } else { v } };
+                let cx = { let amt = amount(rng); if rng.chance(11, 12) { transfer_ctx(rng, amt) } else { malformed_ctx(rng, amt) } };
                 pair(w, out, rng, Pol::L, a, r, &cx, &sg, &auth);
             }
         }
@@ -613,49 +662,63 @@ fn gen_spending(w: &mut World, out: &mut Out, rng: &mut Rng, steps: usize, small
 }
 
 /// fills the spending history up to MAX_HISTORY_ENTRIES with batches, then probes the bound
-fn gen_history_bound(w: &mut World, out: &mut Out, rng: &mut Rng) {
+fn gen_history_bound(w: &mut World, out: &mut Out, rng: &mut Rng, a: usize) {
     let max = w.max_hist as usize;
-    let via = Auth { via: true, mock: std::vec![] };
+    let via = Auth { via: true, mock: if a == 0 { std::vec![] } else { std::vec![a] } };
+    let one = Auth { via: a == 0, mock: if a == 0 { std::vec![] } else { std::vec![a] } };
+    let k = w.key_ix(a, 0).unwrap();
     let period = 5000 + rng.below(1000) as u32;
-    w.l_install(out, &via, 0, 0, 1_000_000_000, period);
+    w.l_install(out, &one, a, 0, 1_000_000_000, period);
     let sg = std::vec![0usize];
     let chunk = 40 + rng.below(30) as usize;
     let mut filled = 0usize;
     let early = 3 + rng.below(5) as usize; // entries that will expire first
     // a few early entries, then a ledger gap
-    let cxs: std::vec::Vec<Cx> = (0..early).map(|i| Cx::transfer(1 + i as i128)).collect();
-    w.enforce(out, Pol::L, &via, 0, 0, &cxs, &sg); filled += early;
+    let cxs: std::vec::Vec<Cx> = (0..early).map(|i| Cx::transfer_t(i % 2, 1 + i as i128)).collect();
+    w.enforce(out, Pol::L, &via, a, 0, &cxs, &sg); filled += early;
     w.advance(out, 10 + rng.below(10) as u32);
     while filled + chunk < max.saturating_sub(2) {
-        let cxs: std::vec::Vec<Cx> = (0..chunk).map(|_| Cx::transfer(rng.below(3) as i128)).collect();
-        w.enforce(out, Pol::L, &via, 0, 0, &cxs, &sg); filled += chunk;
+        let cxs: std::vec::Vec<Cx> = (0..chunk).map(|_| Cx::transfer_t(rng.below(2) as usize, rng.below(3) as i128)).collect();
+        w.enforce(out, Pol::L, &via, a, 0, &cxs, &sg); filled += chunk;
         if rng.chance(1, 2) { w.advance(out, rng.below(3) as u32); }
     }
     // up to max-1 entries
     let rest = max.saturating_sub(1).saturating_sub(filled);
-    if rest > 0 { let cxs: std::vec::Vec<Cx> = (0..rest).map(|_| Cx::transfer(1)).collect(); w.enforce(out, Pol::L, &via, 0, 0, &cxs, &sg); filled += rest; }
+    if rest > 0 { let cxs: std::vec::Vec<Cx> = (0..rest).map(|_| Cx::transfer(1)).collect(); w.enforce(out, Pol::L, &via, a, 0, &cxs, &sg); }
     // entry number max: allowed; number max+1: refused (both answers must agree)
     for _ in 0..3 {
         let cx = Cx::transfer(rng.below(3) as i128);
-        w.can_enforce(out, Pol::L, 0, 0, &cx, &sg);
-        w.enforce(out, Pol::L, &via, 0, 0, &[cx], &sg);
+        w.can_enforce(out, Pol::L, a, 0, &cx, &sg);
+        w.enforce(out, Pol::L, &one, a, 0, &[cx], &sg);
     }
-    // a batch that would overflow the history by its second element, from max-1: roll everything back
-    // (state is at max now) -> let the early entries expire: exactly `early` slots become free
-    let first = w.prev_hist[0].first().map(|x| x.1).unwrap_or(1);
+    // at capacity the limit is set to exactly what is spent: limit and capacity bind together
+    let spent: i128 = w.prev_hist[k].iter().map(|x| x.0).sum();
+    w.l_set_limit(out, &one, a, 0, spent.max(1));
+    w.can_enforce(out, Pol::L, a, 0, &Cx::transfer(0), &sg);
+    w.enforce(out, Pol::L, &one, a, 0, &[Cx::transfer(0)], &sg);
+    // let the early entries expire: exactly `early` slots (and their amounts) become free
+    let first = w.prev_hist[k].first().map(|x| x.1).unwrap_or(1);
     let d = (first + period).saturating_sub(w.now);
     if d > 1 { w.advance(out, d - 1); }
     let cx = Cx::transfer(1);
-    w.can_enforce(out, Pol::L, 0, 0, &cx, &sg);
-    w.enforce(out, Pol::L, &via, 0, 0, &[cx.clone()], &sg);        // still full one ledger before expiry
+    w.can_enforce(out, Pol::L, a, 0, &cx, &sg);
+    w.enforce(out, Pol::L, &one, a, 0, &[cx.clone()], &sg);        // still full one ledger before expiry
     w.advance(out, 1);
-    w.can_enforce(out, Pol::L, 0, 0, &cx, &sg);
+    w.can_enforce(out, Pol::L, a, 0, &cx, &sg);
     let cxs: std::vec::Vec<Cx> = (0..early + 1).map(|_| Cx::transfer(1)).collect();
-    w.enforce(out, Pol::L, &via, 0, 0, &cxs, &sg);                 // one too many: all rolled back
+    w.enforce(out, Pol::L, &via, a, 0, &cxs, &sg);                 // one too many: all rolled back
     let cxs: std::vec::Vec<Cx> = (0..early).map(|_| Cx::transfer(1)).collect();
-    w.enforce(out, Pol::L, &via, 0, 0, &cxs, &sg);                 // exactly fills it again
-    w.can_enforce(out, Pol::L, 0, 0, &cx, &sg);
-    w.enforce(out, Pol::L, &via, 0, 0, &[cx], &sg);
+    w.enforce(out, Pol::L, &via, a, 0, &cxs, &sg);                 // exactly fills it again (room under the limit too)
+    w.can_enforce(out, Pol::L, a, 0, &cx, &sg);
+    w.enforce(out, Pol::L, &one, a, 0, &[cx.clone()], &sg);
+    w.l_set_limit(out, &one, a, 0, 1_000_000_000);
+    w.enforce(out, Pol::L, &one, a, 0, &[cx.clone()], &sg);        // capacity alone still binds
+    // uninstall at capacity, install again: an empty history
+    w.uninstall(out, Pol::L, &one, a, 0);
+    w.can_enforce(out, Pol::L, a, 0, &cx, &sg);
+    w.l_install(out, &one, a, 0, 5, period);
+    w.enforce(out, Pol::L, &one, a, 0, &[cx.clone()], &sg);
+    w.enforce(out, Pol::L, &via, a, 0, &[cx.clone(), Cx::transfer(4), cx], &sg);
 }
 
 /// scripted scenarios (window edges, overflow, configuration boundaries)
@@ -690,7 +753,7 @@ fn directed(out: &mut Out) {
         w.can_enforce(out, Pol::S, 1, 0, &Cx::transfer(1), &[0, 1, 2]);
         w.enforce(out, Pol::S, &a1, 1, 0, &[Cx::transfer(1)], &[0, 1, 2]);
         w.s_install(out, &me(0), 0, 0, &[0, 1], 2, false);
-        w.enforce(out, Pol::S, &me(0), 0, 0, &[Cx::transfer(1), Cx { kind: 1, f: 0, args: std::vec![] }], &[3, 4]);
+        w.enforce(out, Pol::S, &me(0), 0, 0, &[Cx::transfer(1), Cx { tok: 0, kind: 1, f: 0, args: std::vec![] }], &[3, 4]);
         w.enforce(out, Pol::S, &Auth { via: false, mock: std::vec![1, 2, 3] }, 0, 0, &[Cx::transfer(1)], &[3, 4]);
         w.finish(out, "directed-simple", 1);
     }
@@ -770,8 +833,8 @@ fn directed(out: &mut Out) {
         w.enforce(out, Pol::L, &au, 1, 0, &[Cx::transfer(70), Cx::transfer(50)], &sg);
         w.enforce(out, Pol::L, &au, 1, 0, &[], &sg);
         // malformed contexts
-        for cx in [Cx { kind: 1, f: 0, args: std::vec![] }, Cx { kind: 2, f: 0, args: std::vec![A::Addr, A::Addr, A::I(0)] }, Cx { kind: 0, f: 1, args: std::vec![A::Addr, A::Addr, A::I(0)] },
-                   Cx { kind: 0, f: 0, args: std::vec![A::Addr, A::Addr] }, Cx { kind: 0, f: 0, args: std::vec![A::Addr, A::Addr, A::U32(0)] }, Cx { kind: 0, f: 0, args: std::vec![A::Addr, A::Addr, A::U128(0)] }] {
+        for cx in [Cx { tok: 0, kind: 1, f: 0, args: std::vec![] }, Cx { tok: 0, kind: 2, f: 0, args: std::vec![A::Addr, A::Addr, A::I(0)] }, Cx { tok: 0, kind: 0, f: 1, args: std::vec![A::Addr, A::Addr, A::I(0)] },
+                   Cx { tok: 0, kind: 0, f: 0, args: std::vec![A::Addr, A::Addr] }, Cx { tok: 0, kind: 0, f: 0, args: std::vec![A::Addr, A::Addr, A::U32(0)] }, Cx { tok: 0, kind: 0, f: 0, args: std::vec![A::Addr, A::Addr, A::U128(0)] }] {
             w.can_enforce(out, Pol::L, 1, 0, &cx, &sg);
             w.enforce(out, Pol::L, &a1, 1, 0, &[cx], &sg);
         }
@@ -910,6 +973,89 @@ fn persistence(out: &mut Out, rng: &mut Rng, host: HostCfg, start: u32) {
     w.finish(out, &format!("persistence-host{}", if host.min_temp == 1 { 0 } else { 1 }), start);
 }
 
+/// a deep window, a limit lowered below what is already spent, two token contracts, re-install
+/// attempts, and what happens at ledger 0
+fn directed_window(out: &mut Out) {
+    let me = |a: usize| Auth { via: a == 0, mock: if a == 0 { std::vec![] } else { std::vec![a] } };
+    for (a, start) in [(1usize, 50u32), (0usize, 7u32)] {
+        let mut w = World::new(start);
+        let au = me(a); let sg = [1usize];
+        w.l_install(out, &au, a, 1, 1000, 20);
+        for i in 0..9 {                                          // nine entries, one per ledger, alternating tokens
+            let cx = Cx::transfer_t(i % 2, 10 + i as i128);
+            w.can_enforce(out, Pol::L, a, 1, &cx, &sg);
+            w.enforce(out, Pol::L, &au, a, 1, &[cx], &sg);
+            w.advance(out, 1);
+        }
+        // 126 spent; the two tokens share ONE budget
+        w.can_enforce(out, Pol::L, a, 1, &Cx::transfer_t(1, 874), &sg);
+        w.can_enforce(out, Pol::L, a, 1, &Cx::transfer_t(1, 875), &sg);
+        w.enforce(out, Pol::L, &au, a, 1, &[Cx::transfer_t(1, 875)], &sg);            // refused by the window
+        w.enforce(out, Pol::L, &Auth { via: true, mock: if a == 0 { std::vec![] } else { std::vec![a] } }, a, 1, &[Cx::transfer_t(0, 500), Cx::transfer_t(1, 375)], &sg);
+        w.enforce(out, Pol::L, &Auth { via: true, mock: if a == 0 { std::vec![] } else { std::vec![a] } }, a, 1, &[Cx::transfer_t(0, 500), Cx::transfer_t(1, 374)], &sg);
+        // install over the live installation must be refused (it would restart the window)
+        w.l_install(out, &au, a, 1, 1000, 20);
+        w.l_install(out, &au, a, 1, 5000, 3);
+        w.enforce(out, Pol::L, &au, a, 1, &[Cx::transfer(1)], &sg);                   // still full
+        // the limit is lowered below what is already spent: everything is refused, even 0 ...
+        w.l_set_limit(out, &au, a, 1, 600);
+        w.can_enforce(out, Pol::L, a, 1, &Cx::transfer(0), &sg);
+        w.enforce(out, Pol::L, &au, a, 1, &[Cx::transfer(0)], &sg);
+        w.enforce(out, Pol::L, &au, a, 1, &[Cx::transfer(5)], &sg);
+        w.enforce(out, Pol::L, &Auth { via: true, mock: if a == 0 { std::vec![] } else { std::vec![a] } }, a, 1, &[Cx::transfer(1), Cx::transfer(2)], &sg);
+        // ... until enough has left the window
+        w.advance(out, 11);                                       // the first entries (10, 11) leave
+        w.enforce(out, Pol::L, &au, a, 1, &[Cx::transfer(1)], &sg);
+        w.advance(out, 9);                                        // everything of the first series has left; the batch of 874 stays
+        w.can_enforce(out, Pol::L, a, 1, &Cx::transfer(1), &sg);
+        w.advance(out, 2);
+        w.can_enforce(out, Pol::L, a, 1, &Cx::transfer(600), &sg);
+        w.enforce(out, Pol::L, &au, a, 1, &[Cx::transfer(600)], &sg);
+        w.l_set_limit(out, &au, a, 1, 601);
+        w.enforce(out, Pol::L, &au, a, 1, &[Cx::transfer_t(1, 1)], &sg);
+        w.enforce(out, Pol::L, &au, a, 1, &[Cx::transfer_t(1, 1)], &sg);
+        // the same key of the other two policies: installing twice
+        w.s_install(out, &au, a, 1, &[0, 1], 1, false);
+        w.s_install(out, &au, a, 1, &[0, 1], 2, false);
+        w.w_install(out, &au, a, 1, &[(0, 2), (1, 3)], 4);
+        w.w_install(out, &au, a, 1, &[(0, 2), (1, 3)], 5);
+        w.enforce(out, Pol::S, &Auth { via: true, mock: if a == 0 { std::vec![] } else { std::vec![a] } }, a, 1, &[Cx::transfer(1), Cx::transfer_t(1, 2), Cx { tok: 0, kind: 1, f: 0, args: std::vec![] }, Cx::transfer(3), Cx::transfer(4), Cx::transfer(5)], &[0]);
+        w.enforce(out, Pol::W, &Auth { via: true, mock: if a == 0 { std::vec![] } else { std::vec![a] } }, a, 1, &[Cx::transfer(1), Cx::transfer_t(1, 2), Cx::transfer(3), Cx::transfer(4), Cx::transfer(5)], &[0, 1]);
+        w.enforce(out, Pol::W, &Auth { via: true, mock: std::vec![] }, 2, 1, &[Cx::transfer(1), Cx::transfer(2)], &[0, 1]);
+        w.uninstall(out, Pol::L, &Auth { via: false, mock: std::vec![3] }, a, 1);
+        w.uninstall(out, Pol::W, &Auth { via: false, mock: std::vec![3] }, a, 1);
+        w.finish(out, "directed-window", start);
+    }
+    // ledger 0 (outside the property's quantifier: the saturating cut-off evicts the entries of the
+    // current ledger): diffed against the model; the monitor suspends only the window clauses of the
+    // installation concerned
+    {
+        let mut w = World::new(0);
+        let a1 = me(1); let sg = [0usize];
+        w.s_install(out, &a1, 1, 0, &[0, 1, 2], 2, false);
+        w.l_install(out, &a1, 1, 0, 100, 10);
+        w.l_install(out, &me(2), 2, 0, 100, 10);
+        w.can_enforce(out, Pol::L, 1, 0, &Cx::transfer(60), &sg);
+        w.enforce(out, Pol::L, &a1, 1, 0, &[Cx::transfer(60)], &sg);
+        w.can_enforce(out, Pol::L, 1, 0, &Cx::transfer(60), &sg);
+        w.enforce(out, Pol::L, &a1, 1, 0, &[Cx::transfer(60)], &sg);          // accepted by the code at ledger 0
+        w.enforce(out, Pol::L, &Auth { via: true, mock: std::vec![1] }, 1, 0, &[Cx::transfer(70), Cx::transfer(70)], &sg);
+        w.can_enforce(out, Pol::S, 1, 0, &Cx::transfer(1), &[0]);
+        w.enforce(out, Pol::S, &a1, 1, 0, &[Cx::transfer(1)], &[0, 1]);
+        w.advance(out, 3);
+        w.enforce(out, Pol::L, &a1, 1, 0, &[Cx::transfer(30)], &sg);
+        w.enforce(out, Pol::L, &me(2), 2, 0, &[Cx::transfer(60)], &sg);       // installed at 0, first spent at 3: fully checked
+        w.enforce(out, Pol::L, &me(2), 2, 0, &[Cx::transfer(41)], &sg);
+        w.uninstall(out, Pol::L, &a1, 1, 0);
+        w.l_install(out, &a1, 1, 0, 100, 10);                                  // a fresh installation at ledger 3: checked again
+        w.enforce(out, Pol::L, &a1, 1, 0, &[Cx::transfer(60)], &sg);
+        w.can_enforce(out, Pol::L, 1, 0, &Cx::transfer(41), &sg);
+        w.enforce(out, Pol::L, &a1, 1, 0, &[Cx::transfer(41)], &sg);
+        w.enforce(out, Pol::L, &a1, 1, 0, &[Cx::transfer(40)], &sg);
+        w.finish(out, "directed-ledger0", 0);
+    }
+}
+
 fn main() {
     let mut out = Out::new("From SC Require Import Lib.Prelude Lib.Int Lib.Host Model.Policies Run.C14.\nOpen Scope Z_scope.", "check_all");
     out.per_shard(400);
@@ -917,13 +1063,14 @@ fn main() {
     let thorough = out.cfg.thorough;
     let scale = out.cfg.scale as usize;
     directed(&mut out);
+    directed_window(&mut out);
     for (i, h) in HOSTS.iter().enumerate() { persistence(&mut out, &mut rng, *h, 1 + 1000 * i as u32); }
     // history bound (MAX_HISTORY_ENTRIES), reached with batches
-    let nb = if thorough { 6 } else { 1 } * scale;
-    for _ in 0..nb {
+    let nb = if thorough { 6 } else { 2 } * scale;
+    for hb in 0..nb {
         let start = 1 + rng.below(50) as u32;
         let mut w = World::new(start);
-        gen_history_bound(&mut w, &mut out, &mut rng);
+        gen_history_bound(&mut w, &mut out, &mut rng, hb % 2);
         w.finish(&mut out, "history-bound", start);
     }
     let (ntr, steps) = if thorough { (600 * scale, 90) } else { (60 * scale, 45) };
@@ -931,10 +1078,11 @@ fn main() {
         let start = match rng.below(6) { 0 => 1, 1 => 2, 2 => 1_000_000, 3 => 2_000_000_000, _ => 1 + rng.below(40) as u32 };
         let mut w = World::with_host(start, NACCT, RIDS.len(), HOSTS[i % 2]);
         let steps = steps + rng.below(steps as u64 / 2) as usize;
-        let desc = match i % 5 {
+        let desc = match i % 6 {
             0 => { gen_simple(&mut w, &mut out, &mut rng, steps); "random-simple" }
             1 => { gen_weighted(&mut w, &mut out, &mut rng, steps); "random-weighted" }
-            2 | 3 => { let small = rng.chance(2, 3); gen_spending(&mut w, &mut out, &mut rng, steps, small); "random-spending" }
+            2 | 3 => { gen_spending(&mut w, &mut out, &mut rng, steps, false); "random-spending" }
+            4 => { gen_spending(&mut w, &mut out, &mut rng, steps, true); "random-spending-wild" }
             _ => { gen_simple(&mut w, &mut out, &mut rng, steps / 4); gen_spending(&mut w, &mut out, &mut rng, steps / 2, false); gen_weighted(&mut w, &mut out, &mut rng, steps / 4); "random-mixed" }
         };
         w.finish(&mut out, desc, start);
